@@ -55,10 +55,43 @@ def gate_string(rng):
     return "2015-03-05 10:30 %s%s%s%s%s" % (rng.choice(["", "UTC", "GMT", "utc "]), rng.choice(SIGNS), num(2), rng.choice(["", ":", "\uff1a"]), rng.choice(["", num(2)]))
 
 
+FOLD = {"s": ["\u017f"], "k": ["\u212a"], "i": ["\u0131", "\u0130"], "a": ["\u00aa", "\uff41"], "o": ["\u00ba", "\uff4f"], "e": ["\uff45", "\u0435"],
+        "n": ["\uff4e"], "d": ["\uff44"], "m": ["\uff4d"], "u": ["\u00b5"], "y": ["\u0443"], "c": ["\u0441"], "h": ["\u04bb"], "t": ["\uff54"]}
+KEYWORDS = ["second", "seconds", "minute", "hour", "hours", "day", "days", "week", "month", "year", "years", "decade", "ago", "in", "am", "pm", "utc", "gmt",
+            "january", "march", "monday", "yesterday", "today", "now", "noon", "midnight"]
+
+
+def fold_string(rng):
+    """a number next to one of the parser's own keywords, one letter of which is replaced by a character that case
+    folding or compatibility normalisation maps onto it (long s, Kelvin sign, dotless i, full-width and Cyrillic
+    look-alikes): the regexes of one stage may accept what the next stage does not know"""
+    w = rng.choice(KEYWORDS)
+    pos = [i for i, ch in enumerate(w) if ch in FOLD]
+    if pos:
+        i = rng.choice(pos)
+        w = w[:i] + rng.choice(FOLD[w[i]]) + w[i + 1:]
+    if rng.random() < 0.3:
+        w = w.upper()
+    n = rng.choice(["5", "1", "2.5", "12", "0", "1,5"])
+    return rng.choice(["%s %s" % (n, w), "%s %s ago" % (n, w), "in %s %s" % (n, w), "%s%s" % (n, w), w, "%s %s 2015" % (n, w), "10:30 %s" % w])
+
+
+def fold_strings_all():
+    """every keyword x every foldable letter x every look-alike x the number / phrase shapes (a finite family: enumerated)"""
+    out = []
+    for w in KEYWORDS:
+        for i, ch in enumerate(w):
+            for rep in FOLD.get(ch, []):
+                v = w[:i] + rep + w[i + 1:]
+                for shape in ("5 %s", "5 %s ago", "in 5 %s", "%s", "12 %s 2015", "10:30 %s"):
+                    out.append(shape % v)
+    return out
+
+
 def gen_string(rng, maxlen=100):
     r = rng.random()
     if r < 0.08:
-        return gate_string(rng)[:maxlen]
+        return (gate_string(rng) if rng.random() < 0.7 else fold_string(rng))[:maxlen]
     if r < 0.25:        # token soup along the model's alphabets
         n = rng.randint(1, 7)
         parts = []
